@@ -557,6 +557,29 @@ def main():
             ck.violation("a location on the default control, used before the limit was set to %d ms in place, ran a non-terminating script: outcome %s after %.0f ms; the limit in force is %d ms (model chooseTimeout)" % (
                 want_ms, o.get("class"), o.get("elapsed_ms", -1), want_ms), {"case": c, "impl": o, "model": m}, tag="defaultctl")
 
+    # 5c. a rule of a location with parents: the search of a fact pattern visits the ancestors (pointing the Context at each);
+    # the scripts that follow still run in, and under the limit of, the rule's own location
+    pcases = [{"kind": "c14.parented", "child_ns": a * MS, "parent_ns": b * MS, "where": w, "wait_ms": max(a, 0) + 2500, "timeout_ms": 20000}
+              for (a, b) in ([(150, 6000)] if not thorough else [(150, 6000), (600, -1), (300, 50)]) for w in ("action", "condition", "script")]
+    pres = run_cases(drv, pcases, jobs=len(pcases), per_chunk=1)
+    pmod = run_cases(mdl, [{"kind": "c14.choose", "tc": {"on": True, "hasLoc": True, "control": c["child_ns"], "sysDefault": STOCK_DEFAULT_MS * MS}} for c in pcases])
+    for c, o, m in zip(pcases, pres, pmod):
+        ck.count(c, nontrivial=True)
+        sstats["parented_cases"] = sstats.get("parented_cases", 0) + 1
+        want = m.get("timeout")
+        if not isinstance(want, (int, float)):
+            ck.violation("INTERNAL: model gave no timeout for %s: %s" % (canon(c)[:200], canon(m)[:200]), {"case": c, "model": m}, tag="internal")
+            continue
+        want_ms = want / MS
+        ok = o.get("class") == "returned" and o.get("timedout") and want_ms - 5 <= o.get("elapsed_ms", -1) <= want_ms + tol + 400
+        if ok and c["where"] == "script" and (o.get("seenAt") != "c14child" or o.get("addedTo")):
+            ck.violation("the action of a rule of location c14child (parent c14parent; condition = a fact pattern) ran with Env.Location = %r%s" % (
+                o.get("seenAt"), " and wrote to the parent" if o.get("addedTo") else ""), {"case": c, "impl": o}, tag="parented")
+        elif not ok:
+            ck.violation("a non-terminating %s of a rule of a location with limit %d ms (parent: %d ms) after a fact-pattern condition: outcome %s%s after %.0f ms; the limit in force is the rule's own location's, %d ms (model chooseTimeout)" % (
+                "action" if c["where"] != "condition" else "code condition", c["child_ns"] // MS, c["parent_ns"] // MS, o.get("class"), "" if o.get("timedout") else " (no timeout reported)",
+                o.get("elapsed_ms", -1), want_ms), {"case": c, "impl": o, "model": m}, tag="parented")
+
     # 6. known findings: replay the witness
     if not kf and stats["known"]:
         gr = next(rr for rr in runs if verdicts[rr["id"]][0] == "known")
